@@ -11,8 +11,10 @@ def make_jobs(rnd, tier):
     jobs = []
     fields = [(13, 2), (31, 2), (31, 3), (61, 3), (BN, 3)] if tier == "quick" else [(13, 2), (17, 2), (31, 3), (31, 2), (61, 3), (61, 4), (127, 4), (BN, 3), (BN, 4), (progs.BLS, 3)]
     per = 4 if tier == "quick" else 60
-    def add(p, n, prog, ins, op, kinds, res=0):
-        jobs.append(dict(cfg=dict(p=p, n=n, res=res, ign=0), prog=prog, ins=ins, op=op, kinds=kinds))
+    TRUTH = {"assert_lt": lambda a, b: a < b, "assert_le": lambda a, b: a <= b, "assert_eq": lambda a, b: a == b, "assert_ne": lambda a, b: a != b,
+             "assert_gt": lambda a, b: a > b, "assert_ge": lambda a, b: a >= b}
+    def add(p, n, prog, ins, op, kinds, res=0, truth=None):
+        jobs.append(dict(cfg=dict(p=p, n=n, res=res, ign=0), prog=prog, ins=ins, op=op, kinds=kinds, truth=truth))
     for (p, n) in fields:
         lim = 2 ** n
         B = min(lim + 1, (p - lim - 2) // 2)        # keep every difference small relative to p (no wrap-around)
@@ -32,6 +34,17 @@ def make_jobs(rnd, tier):
                 add(p, n, [["input", 0, "privfxp", 0], ["input", 1, "privfxp", 1], ["meth", 2, m, None, 0, [1]]], [a, b], m, "privfxp/privfxp", res=rnd.choice([0, 1]))
                 a, b = rnd.choice([0, 1]), rnd.choice([0, 1])
                 add(p, n, [["input", 0, "privbool", 0], ["input", 1, "privbool", 1], ["meth", 2, m, None, 0, [1]]], [a, b], m, "privbool/privbool")
+            # mixed operand classes: the argument is converted to the receiver's class (a secret bit or integer b means the number b)
+            for (ka, kb) in (("privfxp", "privbool"), ("privfxp", "priv"), ("privfxp", "int"), ("privbool", "priv"), ("privbool", "int"), ("priv", "privbool")):
+                for _ in range(max(2, per // 2)):
+                    a = rnd.choice([0, 1]) if ka == "privbool" else rnd.randrange(-2, 3)
+                    b = rnd.choice([0, 1]) if kb == "privbool" or ka == "privbool" else rnd.randrange(-2, 3)
+                    prog = [["input", 0, ka, 0], (["const", 1, ["int", b]] if kb == "int" else ["input", 1, kb, 1]), ["meth", 2, m, None, 0, [1]]]
+                    res = rnd.choice([1, 2]) if ka == "privfxp" else 0
+                    # the relation is decided by the gadget only while the (scaled) difference fits the bitlength
+                    if (abs(a) + abs(b) + 1) * 2 ** res + 2 ** n + 2 >= p // 2: continue      # no wrap-around on tiny fields
+                    decided = (abs(a - b) * 2 ** res + 1) < 2 ** n
+                    add(p, n, prog, [a, b], m, "%s/%s" % (ka, kb), res=res, truth=TRUTH[m](a, b) if decided else None)
         for m in ("assert_zero", "assert_nonzero"):
             for _ in range(per):
                 a = rnd.choice([0, 0, 1, -1, pick(), pick()])
@@ -115,6 +128,8 @@ def run(tier, seed):
         if r1["ncons"] >= 1: nontrivial.add((job["op"], job["kinds"], job["cfg"]["p"], tuple(job["ins"])))
         key = "%s:%s" % (job["op"], job["kinds"])
         case = dict(cfg=job["cfg"], prog=job["prog"], ins=job["ins"])
+        if job.get("truth") is not None and r0["exn"] in (None, "AssertionError") and accepted != bool(job["truth"]):
+            viol.append(dict(kind="oracle", op=job["op"], key=key + ":relation", what="the run-time check %s operands for which the asserted relation is %s" % ("accepts" if accepted else "rejects", "true" if job["truth"] else "false"), case=case))
         if accepted and r0["unsat"]:
             viol.append(dict(kind="oracle", op=job["op"], key=key, what="assertion accepted at run time but its constraints are violated by the recorded witness", case=case))
         if accepted and st == "unsat":
